@@ -152,7 +152,7 @@ def snap_error(err, materialize=True):
     if hasattr(err, "exceeded_by"):
         d["by"] = err.exceeded_by
     if isinstance(err, ValueConstraintViolatedError):
-        d["value"] = int(err.value)
+        d["value"] = None if err.value is None else int(err.value)
     if hasattr(err, "command_code"):
         cc = err.command_code
         d["cc"] = None if cc is None else int(cc)
